@@ -87,6 +87,10 @@ enum E {
     Bin(&'static str, &'static str, Box<E>, Box<E>),
     Call(Id, Vec<E>),
     Bi(usize, Vec<E>),
+    /// outside the modelled fragment: text with `{z}` where the renaming suffix goes (a record field, an
+    /// element of an array of records, UBOUND(..) — scalar-valued — or, in the edit family, a NON-scalar
+    /// operand: whole array, record variable); the flag: string-valued
+    Ext(String, bool),
 }
 
 #[derive(Clone, Debug)]
@@ -101,11 +105,16 @@ enum S {
     For(Id, Vec<E>, Vec<S>, Option<Id>),
     Select(E, Vec<(Vec<E>, Vec<S>)>),
     Dim(Id, Vec<E>),
+    /// outside the modelled fragment: one line of text with `{z}` placeholders and no expression positions
+    /// (declarations of records, record assignment, array / record arguments)
+    Raw(String),
 }
 
 #[derive(Clone)]
 struct Prog {
     defint: bool,
+    /// uses records, arrays of records, array and record parameters (outside the Lean model)
+    ext: bool,
     body: Vec<S>,
 }
 
@@ -119,6 +128,7 @@ fn e_text(e: &E, ren: bool) -> String {
         E::Bin(_, sym, l, r) => format!("{} {} {}", e_text(l, ren), sym, e_text(r, ren)),
         E::Call(f, a) => format!("{}({})", f.text(ren), a.iter().map(|x| e_text(x, ren)).collect::<Vec<_>>().join(", ")),
         E::Bi(b, a) => format!("{}({})", BUILTINS[*b].1, a.iter().map(|x| e_text(x, ren)).collect::<Vec<_>>().join(", ")),
+        E::Ext(t, _) => t.replace("{z}", if ren { "ZQ" } else { "" }),
     }
 }
 fn e_sx(e: &E, ren: bool) -> String {
@@ -131,6 +141,7 @@ fn e_sx(e: &E, ren: bool) -> String {
         E::Bin(op, _, l, r) => format!("(b {} {} {})", op, e_sx(l, ren), e_sx(r, ren)),
         E::Call(f, a) => format!("(c {} {})", f.sx(ren), es_sx(a, ren)),
         E::Bi(b, a) => format!("(f {} {})", BUILTINS[*b].0, es_sx(a, ren)),
+        E::Ext(..) => "(ext)".to_owned(),
     }
 }
 fn es_sx(a: &[E], ren: bool) -> String {
@@ -235,6 +246,10 @@ impl Printer {
                 }
                 self.emit(ind, "END SELECT".into());
             }
+            S::Raw(t) => {
+                self.emit(ind, t.replace("{z}", if r { "ZQ" } else { "" }));
+                self.lines.push("(ext)".to_owned());
+            }
             S::Dim(a, b) => {
                 self.emit(ind, format!("DIM {}({})", a.text(r), b.iter().map(|x| e_text(x, r)).collect::<Vec<_>>().join(", ")));
                 self.lines.push(format!("(dim {} {} {})", row, a.sx(r), es_sx(b, r)));
@@ -256,13 +271,23 @@ fn print_prog(p: &Prog, ren: bool) -> Printed {
         pr.out.push("DEFINT I-K".into());
         pr.out.push("DEFSTR S".into());
     }
+    let z = if ren { "ZQ" } else { "" };
+    if p.ext {
+        pr.out.push(format!("TYPE CARD{z}"));
+        pr.out.push("  VALUE AS INTEGER".into());
+        pr.out.push("  SUIT AS STRING * 5".into());
+        pr.out.push("END TYPE".into());
+    }
     pr.stmts(&p.body, 0);
     pr.out.push("END".into());
-    let z = if ren { "ZQ" } else { "" };
     pr.out.push(format!("FUNCTION FA{z}% (PA{z}%)\n  FA{z}% = PA{z}% + 1\nEND FUNCTION"));
     pr.out.push(format!("FUNCTION FB{z}$ (PA{z}$, PB{z}!)\n  FB{z}$ = PA{z}$ + \"!\"\nEND FUNCTION"));
     pr.out.push(format!("SUB SA{z} (PA{z}%)\n  PA{z}% = PA{z}% + 1\nEND SUB"));
     pr.out.push(format!("SUB SB{z} (PA{z}$, PB{z}#)\n  PA{z}$ = \"s\"\nEND SUB"));
+    if p.ext {
+        pr.out.push(format!("SUB SC{z} (PA{z}%(), PB{z}%)\n  PA{z}%(PB{z}%) = 7\nEND SUB"));
+        pr.out.push(format!("SUB SD{z} (PA{z} AS CARD{z})\n  PA{z}.VALUE = PA{z}.VALUE + 1\nEND SUB"));
+    }
     Printed { text: pr.out.join("\n") + "\n", lines: pr.lines, rows: pr.rows, next_rows: pr.next_rows }
 }
 
@@ -276,7 +301,14 @@ fn deft_sx(defint: bool) -> String {
     format!("({})", v.join(" "))
 }
 
-fn model_request(p: &Prog, pr: &Printed, ren: bool) -> String {
+fn model_request(p: &Prog, pr: &Printed, ren: bool) -> Option<String> {
+    if p.ext || pr.lines.iter().any(|l| l.contains("(ext)")) {
+        return None;
+    }
+    Some(model_request_in(p, pr, ren))
+}
+
+fn model_request_in(p: &Prog, pr: &Printed, ren: bool) -> String {
     let prm = |b: &str, s: T| Id::new(b, Some(s)).sx(ren);
     format!(
         "(ty.lint {} ({} {}) (({} ({})) ({} ({} {}))) (({} ({})) ({} ({} {}))) (({})))",
@@ -292,6 +324,7 @@ fn model_request(p: &Prog, pr: &Printed, ren: bool) -> String {
 struct Gen<'a> {
     rng: &'a mut Rng,
     defint: bool,
+    ext: bool,
     labels: u32,
 }
 impl<'a> Gen<'a> {
@@ -324,6 +357,10 @@ impl<'a> Gen<'a> {
         E::Lit(t, s)
     }
     fn num(&mut self, d: u32) -> E {
+        if self.ext && self.rng.chance(1, 6) {
+            let t = *self.rng.pick(&["RC{z}.VALUE", "RA{z}(2).VALUE", "RA{z}(AR{z}%(1) + 1).VALUE", "UBOUND(AR{z}%)", "LBOUND(AT{z}$)", "LEN(RC{z})", "LEN(RA{z}(1))"]);
+            return E::Ext(t.to_owned(), false);
+        }
         let t = self.num_t();
         if d == 0 || self.rng.chance(1, 3) {
             return if self.rng.chance(1, 2) { E::Var(self.var(t)) } else { self.lit(t) };
@@ -372,6 +409,10 @@ impl<'a> Gen<'a> {
         }
     }
     fn str(&mut self, d: u32) -> E {
+        if self.ext && self.rng.chance(1, 6) {
+            let t = *self.rng.pick(&["RC{z}.SUIT", "RA{z}(1).SUIT"]);
+            return E::Ext(t.to_owned(), true);
+        }
         if d == 0 || self.rng.chance(1, 3) {
             return if self.rng.chance(1, 2) { E::Var(self.var(T::Str)) } else { self.lit(T::Str) };
         }
@@ -394,6 +435,18 @@ impl<'a> Gen<'a> {
         }
     }
     fn stmt(&mut self, d: u32, out: &mut Vec<S>) {
+        if self.ext && self.rng.chance(1, 5) {
+            match self.rng.below(4) {
+                0 => out.push(S::Assign(E::Ext("RC{z}.VALUE".into(), false), self.num(2))),
+                1 => out.push(S::Assign(E::Ext("RA{z}(2).SUIT".into(), true), self.str(2))),
+                2 => out.push(S::Assign(E::Ext("RA{z}(1).VALUE".into(), false), self.num(2))),
+                _ => {
+                    let t = *self.rng.pick(&["RD{z} = RC{z}", "RA{z}(2) = RC{z}", "RC{z} = RA{z}(3)", "SC{z} AR{z}%(), 2", "SD{z} RC{z}", "SD{z} RA{z}(1)"]);
+                    out.push(S::Raw(t.to_owned()));
+                }
+            }
+            return;
+        }
         let k = if d == 0 { self.rng.below(4) } else { self.rng.below(9) };
         match k {
             0 => {
@@ -485,15 +538,24 @@ impl<'a> Gen<'a> {
     }
 }
 
-fn generate(rng: &mut Rng) -> Prog {
+fn generate(rng: &mut Rng, ext: bool) -> Prog {
     let defint = rng.chance(1, 2);
-    let mut g = Gen { rng, defint, labels: 0 };
+    let mut g = Gen { rng, defint, ext: false, labels: 0 };
     let mut body = vec![S::Dim(ar(), vec![E::Lit(T::Int, "10".into())]), S::Dim(at(), vec![g.num(1)])];
+    g.ext = ext;
+    if ext {
+        for t in ["DIM RC{z} AS CARD{z}", "DIM RD{z} AS CARD{z}", "DIM RA{z}(1 TO 3) AS CARD{z}"] {
+            body.push(S::Raw(t.to_owned()));
+        }
+        // a DIM after the declarations, so that its bounds can name them
+        let b = g.num(1);
+        body.push(S::Dim(Id::new("AU", Some(T::Sgl)), vec![b]));
+    }
     let n = 3 + g.rng.below(4);
     for _ in 0..n {
         g.stmt(2, &mut body);
     }
-    Prog { defint, body }
+    Prog { defint, ext, body }
 }
 
 // ---- mutation: rewrite the k-th sub-expression / insert at the k-th statement position ------------
@@ -513,9 +575,9 @@ fn map_e(e: &E, k: &mut i64, f: &dyn Fn(&E) -> E, ctx: &str, hit: &mut Option<St
     if *k > 0 {
         *k -= 1;
     }
-    let sub = |x: &E, k: &mut i64, c: &str, hit: &mut Option<String>| Box::new(map_e(x, k, f, &format!("{}/{}", ctx.split('/').next().unwrap(), c), hit));
+    let sub = |x: &E, k: &mut i64, c: &str, hit: &mut Option<String>| Box::new(map_e(x, k, f, &format!("{}/{}", ctx, c), hit));
     match e {
-        E::Lit(..) | E::Var(_) => e.clone(),
+        E::Lit(..) | E::Var(_) | E::Ext(..) => e.clone(),
         E::Paren(a) => E::Paren(sub(a, k, "paren", hit)),
         E::Neg(a) => E::Neg(sub(a, k, "operand", hit)),
         E::Not(a) => E::Not(sub(a, k, "operand", hit)),
@@ -528,7 +590,10 @@ fn map_e(e: &E, k: &mut i64, f: &dyn Fn(&E) -> E, ctx: &str, hit: &mut Option<St
             let c = if *fid == ar() || *fid == at() { "subscript" } else { "fn-arg" };
             E::Call(fid.clone(), a.iter().map(|x| *sub(x, k, c, hit)).collect())
         }
-        E::Bi(b, a) => E::Bi(*b, a.iter().map(|x| *sub(x, k, "builtin-arg", hit)).collect()),
+        E::Bi(b, a) => E::Bi(*b, a.iter().enumerate().map(|(i, x)| {
+            let c = if BUILTINS[*b].0 == "len" { "len-arg" } else if BUILTINS[*b].0 == "string" && i == 1 { "string2-arg" } else { "builtin-arg" };
+            *sub(x, k, c, hit)
+        }).collect()),
     }
 }
 
@@ -561,7 +626,7 @@ fn map_prog(p: &Prog, k: i64, f: &dyn Fn(&E) -> E) -> Option<(Prog, Hit)> {
                 }
                 S::Print(items) => S::Print(items.iter().map(|x| one(x, "print-item", 0, k, found)).collect()),
                 S::CallSub(n, a) => S::CallSub(n.clone(), a.iter().map(|x| one(x, "sub-arg", 0, k, found)).collect()),
-                S::Goto(_) | S::Label(_) => s.clone(),
+                S::Goto(_) | S::Label(_) | S::Raw(_) => s.clone(),
                 S::If(c, t, e) => {
                     let c2 = one(c, "if-cond", 0, k, found);
                     let t2 = go(t, k, sid, f, found);
@@ -591,7 +656,7 @@ fn map_prog(p: &Prog, k: i64, f: &dyn Fn(&E) -> E) -> Option<(Prog, Hit)> {
         out
     }
     let body = go(&p.body, &mut k, &mut sid, f, &mut found);
-    found.map(|h| (Prog { defint: p.defint, body }, h))
+    found.map(|h| (Prog { defint: p.defint, ext: p.ext, body }, h))
 }
 
 /// Inserts a statement before the k-th statement (pre-order, nested blocks included).
@@ -622,7 +687,7 @@ fn insert_stmt(p: &Prog, k: usize, new: &S) -> Option<(Prog, usize, String)> {
     let mut sid = 0;
     let mut done = None;
     let body = go(&p.body, k, &mut sid, new, &mut done, "top-level");
-    done.map(|(id, w)| (Prog { defint: p.defint, body }, id, w))
+    done.map(|(id, w)| (Prog { defint: p.defint, ext: p.ext, body }, id, w))
 }
 
 fn is_str(e: &E, defint: bool) -> bool {
@@ -633,6 +698,7 @@ fn is_str(e: &E, defint: bool) -> bool {
         E::Neg(_) | E::Not(_) => false,
         E::Bin(op, _, l, _) => *op == "plus" && is_str(l, defint),
         E::Bi(b, _) => !matches!(BUILTINS[*b].0, "val" | "instr" | "len"),
+        E::Ext(_, s) => *s,
     }
 }
 
@@ -689,25 +755,48 @@ fn main() {
         "verdict (accept | LintError variant + row) of the Lean model = verdict of rusty_linter::core::lint on generated programs, all their single-edit mutants and renamed copies; accepted programs never end in a wrong-kind failure at run time; every fault at every position is rejected with the family's error at the edited row; distinct = (fault family, syntactic position kind, verdict)",
     );
     let thorough = rep.is_thorough();
-    let n_progs = if thorough { 400 } else { 20 };
+    let n_progs = if thorough { 400 } else { 14 };
     let str_x = || E::Lit(T::Str, "\"x\"".into());
 
+    #[derive(Clone)]
+    enum Expect {
+        Accept,
+        Exact(&'static str, usize),
+        AnyOf(&'static [&'static str], Vec<usize>),
+    }
     struct Case {
         text: String,
-        model_req: String,
-        family: &'static str,
+        /// None: the program is outside the Lean model's fragment (records, whole arrays, array parameters)
+        model_req: Option<String>,
+        family: String,
         pos: String,
-        expect: Option<(&'static str, usize)>,
+        expect: Expect,
         renamed_text: Option<String>,
         renamed_req: Option<String>,
     }
+    /// statement kind + innermost container of a position (the full chain is kept for the eligibility rules)
+    fn short(kind: &str) -> String {
+        let v: Vec<&str> = kind.split('/').collect();
+        format!("{}/{}", v[0], v[v.len() - 1])
+    }
+    /// the containers of a position with the trailing parentheses removed; "" if the position is the value
+    /// of the statement's expression itself (possibly in parentheses)
+    fn owner(kind: &str) -> String {
+        let v: Vec<&str> = kind.split('/').collect();
+        let mut rest: Vec<&str> = v[1..].iter().cloned().filter(|s| *s != "top").collect();
+        while rest.last() == Some(&"paren") {
+            rest.pop();
+        }
+        rest.last().map(|s| s.to_string()).unwrap_or_default()
+    }
     let mut cases: Vec<Case> = vec![];
     for pi in 0..n_progs {
-        let p = generate(&mut rng);
+        // every other program uses records, arrays of records and array / record parameters
+        let p = generate(&mut rng, pi % 2 == 1);
         let pr = print_prog(&p, false);
         let prr = print_prog(&p, true);
-        cases.push(Case { text: pr.text.clone(), model_req: model_request(&p, &pr, false), family: "original", pos: "-".into(), expect: None,
-            renamed_text: Some(prr.text.clone()), renamed_req: Some(model_request(&p, &prr, true)) });
+        cases.push(Case { text: pr.text.clone(), model_req: model_request(&p, &pr, false), family: if p.ext { "original-with-records".into() } else { "original".into() }, pos: "-".into(), expect: Expect::Accept,
+            renamed_text: Some(prr.text.clone()), renamed_req: model_request(&p, &prr, true) });
         // expression-level fault families at every expression position
         type Mk = Box<dyn Fn(&E) -> E>;
         let defint = p.defint;
@@ -737,13 +826,63 @@ fn main() {
             }
             for (fam, variant, mk) in fams.iter() {
                 // only every third program gets all families at all positions in the quick tier
-                if !thorough && *fam != "string-operand-for-arithmetic" && (pi + k as usize) % 3 != 0 {
+                if !thorough && (*fam != "string-operand-for-arithmetic" || p.ext) && (pi + k as usize) % 3 != 0 {
                     continue;
                 }
                 if let Some((q, hit)) = map_prog(&p, k, mk.as_ref()) {
                     let qp = print_prog(&q, false);
                     let row = *qp.rows.get(&(hit.stmt, hit.sub)).unwrap();
-                    cases.push(Case { text: qp.text.clone(), model_req: model_request(&q, &qp, false), family: fam, pos: hit.kind.clone(), expect: Some((variant, row)), renamed_text: None, renamed_req: None });
+                    cases.push(Case { text: qp.text.clone(), model_req: model_request(&q, &qp, false), family: fam.to_string(), pos: short(&hit.kind), expect: Expect::Exact(variant, row), renamed_text: None, renamed_req: None });
+                }
+            }
+            // ---- an operand of the wrong kind / a non-scalar operand IN PLACE of the expression at position k
+            let orig_is_str = std::cell::Cell::new(false);
+            let _ = map_prog(&p, k, &|e: &E| { orig_is_str.set(is_str(e, defint)); e.clone() });
+            let was_str = orig_is_str.get();
+            let edited_row = |qp: &Printed, hit: &Hit| -> Vec<usize> {
+                // the type of a SELECT CASE expression is tested against each CASE item: the error may be located
+                // at the first CASE line of the edited SELECT CASE statement instead of its first line
+                let mut rows = vec![*qp.rows.get(&(hit.stmt, hit.sub)).unwrap()];
+                if hit.kind.starts_with("select-expr") && owner(&hit.kind).is_empty() {
+                    rows.push(*qp.rows.get(&(hit.stmt, 1)).unwrap());
+                }
+                rows
+            };
+            {
+                let fam = if was_str { "wrong-kind-operand(number-for-string)" } else { "wrong-kind-operand(string-for-number)" };
+                let mk = move |_: &E| if was_str { E::Lit(T::Int, "5".into()) } else { E::Lit(T::Str, "\"a\"".into()) };
+                if let Some((q, hit)) = map_prog(&p, k, &mk) {
+                    let own = owner(&hit.kind);
+                    // positions that take either kind: a PRINT item, the second argument of STRING$, LEN of a string
+                    let legit = (hit.kind.starts_with("print-item") && own.is_empty()) || own == "string2-arg" || (own == "len-arg" && !was_str);
+                    if !legit {
+                        let qp = print_prog(&q, false);
+                        let row = edited_row(&qp, &hit);
+                        cases.push(Case { text: qp.text.clone(), model_req: model_request(&q, &qp, false), family: fam.into(), pos: short(&hit.kind), expect: Expect::AnyOf(&["TypeMismatch", "ArgumentTypeMismatch", "VariableRequired"], row), renamed_text: None, renamed_req: None });
+                    }
+                }
+            }
+            if p.ext {
+                let classes: [(&str, &str); 5] = [("whole-array", "AR{z}%()"), ("record", "RC{z}"), ("whole-array", "AT{z}$()"), ("record-element", "RA{z}(1)"), ("whole-array-of-records", "RA{z}()")];
+                for (ci, (class, text)) in classes.iter().enumerate() {
+                    if !thorough && (pi + k as usize + ci) % 5 > 1 {
+                        continue;
+                    }
+                    let t = text.to_string();
+                    let mk = move |_: &E| E::Ext(t.clone(), false);
+                    if let Some((q, hit)) = map_prog(&p, k, &mk) {
+                        // LEN takes a record variable
+                        if owner(&hit.kind) == "len-arg" && class.starts_with("record") {
+                            continue;
+                        }
+                        // the first two DIM statements precede the declarations of the operands
+                        if hit.stmt < 2 {
+                            continue;
+                        }
+                        let qp = print_prog(&q, false);
+                        let row = edited_row(&qp, &hit);
+                        cases.push(Case { text: qp.text.clone(), model_req: None, family: format!("non-scalar-operand({})", class), pos: short(&hit.kind), expect: Expect::AnyOf(&["TypeMismatch", "ArgumentTypeMismatch"], row), renamed_text: None, renamed_req: None });
+                    }
                 }
             }
             k += 1;
@@ -768,7 +907,7 @@ fn main() {
                 if let Some((q, id, w)) = insert_stmt(&p, s, &st) {
                     let qp = print_prog(&q, false);
                     let row = *qp.rows.get(&(id, 0)).unwrap();
-                    cases.push(Case { text: qp.text.clone(), model_req: model_request(&q, &qp, false), family: fam, pos: w, expect: Some((variant, row)), renamed_text: None, renamed_req: None });
+                    cases.push(Case { text: qp.text.clone(), model_req: model_request(&q, &qp, false), family: fam.to_string(), pos: w, expect: Expect::Exact(variant, row), renamed_text: None, renamed_req: None });
                 }
             }
         }
@@ -806,38 +945,57 @@ fn main() {
                     }
                 }).collect()
             }
-            let q = Prog { defint: p.defint, body: set_next(&p.body, &mut 0, fid) };
+            let q = Prog { defint: p.defint, ext: p.ext, body: set_next(&p.body, &mut 0, fid) };
             let qp = print_prog(&q, false);
             let row = *qp.next_rows.get(&fid).unwrap();
-            cases.push(Case { text: qp.text.clone(), model_req: model_request(&q, &qp, false), family: "next-for-the-wrong-counter", pos: "for".into(), expect: Some(("NextWithoutFor", row)), renamed_text: None, renamed_req: None });
+            cases.push(Case { text: qp.text.clone(), model_req: model_request(&q, &qp, false), family: "next-for-the-wrong-counter".into(), pos: "for".into(), expect: Expect::Exact("NextWithoutFor", row), renamed_text: None, renamed_req: None });
         }
     }
 
     // model answers in one batch
-    let mut reqs: Vec<String> = cases.iter().map(|c| c.model_req.clone()).collect();
-    let ren_idx: Vec<usize> = cases.iter().enumerate().filter(|(_, c)| c.renamed_req.is_some()).map(|(i, _)| i).collect();
+    // requests: one per case inside the fragment, then the renamed copies
+    let mut reqs: Vec<String> = vec![];
+    let mut req_of: Vec<Option<usize>> = vec![];
+    for c in &cases {
+        req_of.push(c.model_req.as_ref().map(|r| { reqs.push(r.clone()); reqs.len() - 1 }));
+    }
+    let ren_idx: Vec<usize> = cases.iter().enumerate().filter(|(_, c)| c.renamed_text.is_some()).map(|(i, _)| i).collect();
+    let mut ren_req_of: Vec<Option<usize>> = vec![];
     for i in &ren_idx {
-        reqs.push(cases[*i].renamed_req.clone().unwrap());
+        ren_req_of.push(cases[*i].renamed_req.as_ref().map(|r| { reqs.push(r.clone()); reqs.len() - 1 }));
     }
     let answers = ask(&reqs);
     let mut accepted_originals = 0u64;
     for (i, c) in cases.iter().enumerate() {
         let real = real_lint(&c.text);
-        let model = answers[i].clone();
+        let model: Option<String> = req_of[i].map(|j| answers[j].clone());
         let class = format!("{}|{}|{}", c.family, c.pos, variant_of(&real));
         rep.case(Some(class));
         rep.bump(&format!("family:{}", c.family));
-        if c.family != "original" {
+        if !c.family.starts_with("original") {
             rep.bump(&format!("position:{}", c.pos));
         }
         if i % 97 == 0 {
-            rep.sample(J::obj([("program", J::s(c.text.clone())), ("family", J::s(c.family)), ("position", J::s(c.pos.clone())), ("real", J::s(real.clone())), ("model", J::s(model.clone()))]));
+            rep.sample(J::obj([("program", J::s(c.text.clone())), ("family", J::s(c.family.clone())), ("position", J::s(c.pos.clone())), ("real", J::s(real.clone())), ("model", J::s(model.clone().unwrap_or("(outside the modelled fragment)".into())))]));
         }
-        if real != model {
-            rep.fail(Failure { kind: Kind::ModelVsImpl, signature: format!("verdict:{}:{}", c.family, c.pos.split('/').next().unwrap_or("")), input: c.text.clone(), implementation: real.clone(), expected: model.clone(), note: "real linter verdict vs Lean model (RbModel.Ty.lint)".into() });
+        match &model {
+            Some(model) => {
+                rep.bump("compared-with-model");
+                if real != *model {
+                    rep.fail(Failure { kind: Kind::ModelVsImpl, signature: format!("verdict:{}:{}", c.family, c.pos.split('/').next().unwrap_or("")), input: c.text.clone(), implementation: real.clone(), expected: model.clone(), note: "real linter verdict vs Lean model (RbModel.Ty.lint)".into() });
+                }
+            }
+            None => rep.bump("outside-model(records/whole arrays): implementation vs property only"),
         }
-        match c.expect {
-            None => {
+        // what an unexpectedly accepted mutant does at run time (the consequence named in the failure)
+        let consequence = |text: &str| -> String {
+            match run_wrong_kind(text) {
+                Some(why) => format!("accepted, then at run time: {}", why),
+                None => "accepted (no wrong-kind failure within the budget)".to_owned(),
+            }
+        };
+        match c.expect.clone() {
+            Expect::Accept => {
                 // an unedited generated program: must be accepted, must run without a wrong-kind failure
                 if real == "ok" {
                     accepted_originals += 1;
@@ -848,10 +1006,20 @@ fn main() {
                     rep.bump("generated-program-rejected");
                 }
             }
-            Some((variant, row)) => {
+            Expect::Exact(variant, row) => {
                 let want = format!("(err {} {})", variant, row);
                 if real != want {
-                    rep.fail(Failure { kind: Kind::ImplVsProperty, signature: format!("edit:{}:{}", c.family, c.pos), input: c.text.clone(), implementation: real.clone(), expected: want, note: "a single ill-forming edit must be rejected with the family's error at the edited statement's row".into() });
+                    let got = if real == "ok" { consequence(&c.text) } else { real.clone() };
+                    rep.fail(Failure { kind: Kind::ImplVsProperty, signature: format!("edit:{}:{}", c.family, c.pos), input: c.text.clone(), implementation: got, expected: want, note: "a single ill-forming edit must be rejected with the family's error at the edited statement's row".into() });
+                }
+            }
+            Expect::AnyOf(variants, rows) => {
+                // signature: family, coarse operand class (whole-array | record | the kind swapped), position kind
+                let sig_family = c.family.replace("whole-array-of-records", "whole-array").replace("record-element", "record");
+                let ok = variants.iter().any(|v| rows.iter().any(|row| real == format!("(err {} {})", v, row)));
+                if !ok {
+                    let got = if real == "ok" { consequence(&c.text) } else { real.clone() };
+                    rep.fail(Failure { kind: Kind::ImplVsProperty, signature: format!("edit:{}:{}", sig_family, c.pos), input: c.text.clone(), implementation: got, expected: format!("(err {} {})", variants.join("|"), rows.iter().map(|r| r.to_string()).collect::<Vec<_>>().join("|")), note: "an operand of the wrong kind, or a non-scalar operand (whole array, record), in a scalar position must be rejected at the edited statement's row".into() });
                 }
             }
         }
@@ -861,14 +1029,19 @@ fn main() {
         let c = &cases[*i];
         let real = real_lint(&c.text);
         let real_r = real_lint(c.renamed_text.as_ref().unwrap());
-        let model_r = answers[cases.len() + j].clone();
+        let model_pair: Option<(String, String)> = match (ren_req_of[j], req_of[*i]) {
+            (Some(a), Some(b)) => Some((answers[a].clone(), answers[b].clone())),
+            _ => None,
+        };
         rep.case(Some(format!("rename|{}", variant_of(&real))));
         rep.bump("renamed-copies");
         if real != real_r {
             rep.fail(Failure { kind: Kind::ImplVsProperty, signature: "rename:verdict-changed".into(), input: c.renamed_text.clone().unwrap(), implementation: real_r.clone(), expected: real.clone(), note: "consistent renaming of user identifiers (same first letter, same suffix) changed the verdict".into() });
         }
-        if model_r != answers[*i] {
-            rep.fail(Failure { kind: Kind::ModelVsImpl, signature: "rename:model-verdict-changed".into(), input: c.renamed_text.clone().unwrap(), implementation: answers[*i].clone(), expected: model_r, note: "the model's verdict changed under renaming".into() });
+        if let Some((model_r, model_o)) = model_pair {
+            if model_r != model_o {
+                rep.fail(Failure { kind: Kind::ModelVsImpl, signature: "rename:model-verdict-changed".into(), input: c.renamed_text.clone().unwrap(), implementation: model_o, expected: model_r, note: "the model's verdict changed under renaming".into() });
+            }
         }
     }
     rep.bump_by("accepted-generated-programs", accepted_originals);
